@@ -395,20 +395,38 @@ func fillValue(t *rapid.T, v reflect.Value, o Options, label string) {
 		return
 	case "dialects.Dialects":
 		all := []string{"PC NETWORK PROGRAM 1.0", "PCLAN1.0", "MICROSOFT NETWORKS 1.03", "MICROSOFT NETWORKS 3.0", "LANMAN1.0", "LANMAN1.2", "LANMAN2.0", "LANMAN2.1", "LM1.2X002", "DOS LM1.2X002", "DOS LANMAN2.1", "Windows for Workgroups 3.1a", "NT LM 0.12"}
+		// The list lives in the data block (up to 65535 bytes): mostly a handful of entries, one time in five
+		// up to 40, one time in ten all 13 defined names together (plus a few more); names are any NUL-free
+		// byte strings, mostly short, now and then up to 300 bytes, so that the list passes 255 bytes
+		// and the entry count passes the number of defined dialects.
+		var ds []string
+		shape := rapid.IntRange(0, 9).Draw(t, label+"Shape")
 		n := rapid.IntRange(0, 8).Draw(t, label+"N")
-		ds := make([]string, n)
-		for i := range ds {
+		switch {
+		case shape == 0:
+			ds = append(ds, all...)
+			n = rapid.IntRange(0, 4).Draw(t, label+"Extra")
+		case shape <= 2:
+			n = rapid.IntRange(9, 40).Draw(t, label+"Many")
+		}
+		for i := 0; i < n; i++ {
 			if rapid.IntRange(0, 3).Draw(t, label+"Custom") == 0 {
 				// any NUL-free name, the empty one included ("02 00" is a well-formed entry)
 				l := rapid.IntRange(0, 12).Draw(t, label+"Len")
+				if rapid.IntRange(0, 7).Draw(t, label+"Long") == 0 {
+					l = rapid.IntRange(13, 300).Draw(t, label+"LongLen")
+				}
 				b := make([]byte, l)
 				for j := range b {
 					b[j] = byte(rapid.IntRange(1, 255).Draw(t, label+"Ch"))
 				}
-				ds[i] = string(b)
+				ds = append(ds, string(b))
 				continue
 			}
-			ds[i] = all[rapid.IntRange(0, len(all)-1).Draw(t, label+"I")]
+			ds = append(ds, all[rapid.IntRange(0, len(all)-1).Draw(t, label+"I")])
+		}
+		if ds == nil {
+			ds = []string{}
 		}
 		v.FieldByName("Dialects").Set(reflect.ValueOf(ds))
 		return
@@ -964,6 +982,7 @@ type CountLoc struct {
 	Start, Width  int // range of parameter-block bytes that differ between the two encodings
 	TypeWidth     int
 	Enc           []byte // encoding with N1 elements
+	Enc2          []byte // encoding with N2 elements
 	Problem       string // "", or why the count could not be located (not a finding: a limit of the method)
 }
 
@@ -1031,7 +1050,7 @@ func CountSlot(e Entry, fields map[string]json.RawMessage, r Relation) CountLoc 
 		loc.Problem = fmt.Sprintf("does not encode: %v / %v", err1, err2)
 		return loc
 	}
-	loc.Enc = enc1
+	loc.Enc, loc.Enc2 = enc1, enc2
 	end := 1 + 2*int(enc1[0])
 	if e2 := 1 + 2*int(enc2[0]); e2 < end {
 		end = e2
@@ -1076,10 +1095,13 @@ func lastDot(s string) int {
 
 // Loc is where one own field was found in an encoding.
 type Loc struct {
-	Name         string
-	Class        string // "fixed" (marked), "count" (located through its buffer), "bytes" (content marked)
+	Name string
+	// "fixed" (marked), "count" (located through its buffer), "bytes" (content marked), "list" / "struct"
+	// (lists of words or structures and structure-valued fields: every member marked, Start/Width are the
+	// span of the bytes that change)
+	Class        string
 	Start, Width int
-	TypeWidth    int // declared width (fixed, count) or content length (bytes)
+	TypeWidth    int // declared width (fixed, count), content length (bytes) or span (list, struct)
 }
 
 // Skip names an own field that has no comparable place in the base encoding, and why:
@@ -1093,6 +1115,7 @@ type Skip struct{ Name, Why string }
 type Located struct {
 	Locs     []Loc
 	Skipped  []Skip
+	Lists    []Skip // located lists, with the block they lie in ("list-in-parameter-block" / "list-in-data-block")
 	ParamEnd int    // 1 + 2*WordCount of the base encoding
 	Enc      []byte // the base encoding
 }
@@ -1171,16 +1194,29 @@ func Locate(e Entry, fields map[string]json.RawMessage) (out Located, ok bool) {
 			}
 			l.Set(reflect.Append(l, l.Index(l.Len()-1)))
 			ApplyRelations(c2)
+			why := "list-in-data-block"
 			switch enc2, err := safeMarshal(c2); {
 			case err != nil || len(enc2) < 1:
 				skip(f.Name, "marshal-error")
+				continue
 			case enc2[0] != base[0]:
-				skip(f.Name, "list-in-parameter-block")
-			default:
-				skip(f.Name, "list-in-data-block")
+				why = "list-in-parameter-block"
+			}
+			// where the list sits: every member of every element is marked (MarkDeep); the span of the bytes
+			// that change is the list's place
+			if sl := MarkDeep(e, fields, f.Name); sl.ProblemKind == "" && sameShape(sl.Enc, base) {
+				out.Locs = append(out.Locs, Loc{f.Name, "list", sl.Start, sl.Width, sl.Width})
+				out.Lists = append(out.Lists, Skip{f.Name, why})
+			} else {
+				skip(f.Name, why)
 			}
 		default:
-			skip(f.Name, "other")
+			// a structure-valued field (resume key, dialect list): located by marking all of its members
+			if sl := MarkDeep(e, fields, f.Name); sl.ProblemKind == "" && sameShape(sl.Enc, base) {
+				out.Locs = append(out.Locs, Loc{f.Name, "struct", sl.Start, sl.Width, sl.Width})
+			} else {
+				skip(f.Name, "other")
+			}
 		}
 	}
 	return out, true
@@ -1225,6 +1261,234 @@ func DataByteFields(e Entry) (out []string) {
 		sl := MarkVar(e, fields, n)
 		if sl.ProblemKind == "" && len(sl.Enc) > 0 && sl.Start >= 1+2*int(sl.Enc[0])+2 {
 			out = append(out, n)
+		}
+	}
+	return out
+}
+
+// ---- lists and structure-valued fields: located by marking all of their members ---------------------------------
+
+// deepMark overwrites, at unchanged length and shape, every markable member below v: fixed-width members with
+// a running byte pattern (variant false) or its complement (variant true), byte contents and strings with
+// an upper-case / lower-case marker. It returns the number of bytes it marked.
+func deepMark(v reflect.Value, variant bool, next *int) int {
+	pat := func(w int) []byte {
+		p := make([]byte, w)
+		for i := range p {
+			p[i] = byte(0x11 + (*next*7)%0xDD)
+			*next++
+			if variant {
+				p[i] = ^p[i]
+			}
+		}
+		return p
+	}
+	switch v.Type().String() {
+	case "types.SMB_RESUME_KEY":
+		// Reserved, ServerState and ClientState are the key; the embedded string is scratch space of the codec
+		n := 0
+		for _, f := range []string{"Reserved", "ServerState", "ClientState"} {
+			n += deepMark(v.FieldByName(f), variant, next)
+		}
+		return n
+	}
+	if IsByteField(v.Type()) {
+		n := len(Content(v))
+		if n > 0 {
+			SetContent(v, marker(n, !variant))
+		}
+		return n
+	}
+	if w := FixedWidth(v.Type()); w > 0 {
+		SetPattern(v, pat(w))
+		return w
+	}
+	switch v.Kind() {
+	case reflect.String:
+		n := v.Len()
+		if n > 0 {
+			v.SetString(string(marker(n, !variant)))
+		}
+		return n
+	case reflect.Struct:
+		n := 0
+		for i := 0; i < v.NumField(); i++ {
+			if v.Type().Field(i).IsExported() {
+				n += deepMark(v.Field(i), variant, next)
+			}
+		}
+		return n
+	case reflect.Slice, reflect.Array:
+		n := 0
+		for i := 0; i < v.Len(); i++ {
+			n += deepMark(v.Index(i), variant, next)
+		}
+		return n
+	}
+	return 0
+}
+
+// MarkDeep is Mark for a list of words or structures or a structure-valued field: every member below the field
+// is overwritten (deepMark) in one copy and with values that differ in every byte in a second copy, lengths
+// and element counts unchanged. Start/Width of the result are the span from the first to the last byte that
+// differs between the two encodings (constant bytes inside the span - format bytes, terminators, padding - do
+// not make it ill-defined); Got is nil.
+func MarkDeep(e Entry, fields map[string]json.RawMessage, name string) Slot {
+	c1, c2 := New(e), New(e)
+	if err := Restore(c1, fields); err != nil {
+		return Slot{Problem: err.Error(), ProblemKind: "bad-case"}
+	}
+	Restore(c2, fields)
+	f1 := reflect.ValueOf(c1).Elem().FieldByName(name)
+	f2 := reflect.ValueOf(c2).Elem().FieldByName(name)
+	n1, n2 := 0, 0
+	marked := deepMark(f1, false, &n1)
+	deepMark(f2, true, &n2)
+	if marked == 0 {
+		return Slot{Problem: "nothing to mark below the field", ProblemKind: "empty"}
+	}
+	enc1, err1 := safeMarshal(c1)
+	enc2, err2 := safeMarshal(c2)
+	s := Slot{TypeWidth: marked, Enc: enc1}
+	if err1 != nil || err2 != nil {
+		s.Problem, s.ProblemKind = fmt.Sprintf("%v / %v", err1, err2), "marshal-error"
+		return s
+	}
+	if len(enc1) != len(enc2) {
+		s.Problem, s.ProblemKind = fmt.Sprintf("%d vs %d bytes", len(enc1), len(enc2)), "content-changes-message-length"
+		return s
+	}
+	lo, hi := -1, -1
+	for i := range enc1 {
+		if enc1[i] != enc2[i] {
+			if lo < 0 {
+				lo = i
+			}
+			hi = i
+		}
+	}
+	if lo < 0 {
+		s.Problem, s.ProblemKind = "changing every member leaves the encoding unchanged", "field-not-emitted"
+		return s
+	}
+	s.Start, s.Width = lo, hi-lo+1
+	return s
+}
+
+// ---- adjacency: what follows a located field starts where that field ends --------------------------------------
+
+// Gap names two fields that are adjacent in the declaration, lie in the same block and are both located,
+// where the second does not start where the first ends: Next.Start != PrevEnd + Lead. Lead is what
+// introduces the second field's content on the wire (the format byte of a NUL-terminated buffer-format
+// string, format byte and 16-bit length of a length-prefixed one; 0 for everything else).
+type Gap struct {
+	Prev, Next Loc
+	PrevEnd    int
+	Lead       int
+}
+
+// stringFraming returns how many bytes of its own encoding precede and follow the content of the byte
+// field v whose content was located at start in enc: (1, 1) for formats 0x02/0x04 when the format byte is
+// there, (3, 0) for 0x01/0x05 and (3, 1) for 0x03 when format byte and length are there, (0, 0) for raw bytes
+// and for a string that is emitted without that framing.
+func stringFraming(v reflect.Value, enc []byte, start int) (lead, trail int) {
+	_, str, ok := content(v)
+	if !ok || !str.IsValid() {
+		return 0, 0
+	}
+	f := byte(str.FieldByName("BufferFormat").Uint())
+	n := str.FieldByName("Buffer").Len()
+	switch f {
+	case 2, 4:
+		if start >= 1 && enc[start-1] == f {
+			return 1, 1
+		}
+	case 1, 3, 5:
+		if start >= 3 && enc[start-3] == f && enc[start-2] == byte(n) && enc[start-1] == byte(n>>8) {
+			if f == 3 {
+				return 3, 1
+			}
+			return 3, 0
+		}
+	}
+	return 0, 0
+}
+
+// Gaps lists the adjacent located pairs whose second field starts later than the first one ends (bytes that
+// belong to no field). Pairs in which the second starts before the end of the first are order / overlap
+// matters and are not listed. The first field of a pair is a fixed-width field, a count field or a byte
+// field (its end: content end plus the terminator of its format); the second a fixed-width field, a count
+// field or a byte field.
+func Gaps(e Entry, fields map[string]json.RawMessage, l Located) (out []Gap) {
+	cmd := New(e)
+	if err := Restore(cmd, fields); err != nil {
+		return nil
+	}
+	// several encoders set the buffer format of their strings themselves (the field then holds it): the
+	// framing is read off the structure as it is after encoding
+	safeMarshal(cmd)
+	rv := reflect.ValueOf(cmd).Elem()
+	at := map[string]Loc{}
+	for _, loc := range l.Locs {
+		at[loc.Name] = loc
+	}
+	own := OwnFields(cmd)
+	for i := 1; i < len(own); i++ {
+		a, okA := at[own[i-1].Name]
+		b, okB := at[own[i].Name]
+		if !okA || !okB || !SameBlock(a.Start, b.Start, l.ParamEnd) {
+			continue
+		}
+		end := 0
+		switch a.Class {
+		case "fixed", "count":
+			end = a.Start + a.TypeWidth
+		case "bytes":
+			_, trail := stringFraming(rv.FieldByName(a.Name), l.Enc, a.Start)
+			end = a.Start + a.Width + trail
+		default:
+			continue
+		}
+		lead := 0
+		slack := 0
+		switch b.Class {
+		case "fixed":
+		case "count":
+			// a count wider than the bytes that changed: they may be its low-order or its high-order end
+			slack = b.TypeWidth - b.Width
+		case "bytes":
+			lead, _ = stringFraming(rv.FieldByName(b.Name), l.Enc, b.Start)
+		default:
+			continue
+		}
+		if b.Start <= end+lead || (slack > 0 && b.Start == end+lead+slack) {
+			continue
+		}
+		out = append(out, Gap{a, b, end, lead})
+	}
+	return out
+}
+
+// FillList gives the list-valued field name (words or structures) n generated elements and makes the count
+// fields agree again.
+func FillList(t *rapid.T, c Cmd, name string, n int, o Options) {
+	v := reflect.ValueOf(c).Elem().FieldByName(name)
+	if !v.IsValid() || v.Kind() != reflect.Slice || v.Type().Elem().Kind() == reflect.Uint8 {
+		return
+	}
+	s := reflect.MakeSlice(v.Type(), n, n)
+	for i := 0; i < n; i++ {
+		fillValue(t, s.Index(i), o, fmt.Sprintf("%s%d", name, i))
+	}
+	v.Set(s)
+	ApplyRelations(c)
+}
+
+// ListFields lists the own fields that are lists of words or structures.
+func ListFields(c Cmd) (out []string) {
+	for _, f := range OwnFields(c) {
+		if f.Type.Kind() == reflect.Slice && f.Type.Elem().Kind() != reflect.Uint8 {
+			out = append(out, f.Name)
 		}
 	}
 	return out
